@@ -25,4 +25,4 @@ DELIVER in {wt}-out/ :
   patch.diff   — `git diff` of the source change only (must apply to a clean checkout with `git apply`; do not include the demonstration in it)
   demo.diff    — the demonstration as a separate diff (or the demo files plus exact instructions), applicable on a clean checkout
   notes.md     — which behaviour the change alters, why the existing tests do not notice, exactly what is needed for the breakage to manifest, the commands you ran and their observed results with and without the change.
-Constraints: the machine is shared — use `-j4` for cargo, keep build output inside your worktree's default target directory, no network (offline only). Do not commit anything. Your final message: a short summary (what you changed, how it manifests, paths of the three files).""")
+HARDER IS BETTER: an independent team has built randomized model-based checks for this property that already catch simple single-site slips (an off-by-one in the main path, a dropped check, swapped comparison). Aim for a change whose effect only shows in a corner of the state space: a rare combination of configuration and history, a boundary that needs two independent conditions, a resource limit (capacity, spill threshold, buffer size), an error path taken after a specific earlier event, or state carried over between two API calls.\nConstraints: the machine is shared — use `-j4` for cargo, keep build output inside your worktree's default target directory, no network (offline only). Do not commit anything. Your final message: a short summary (what you changed, how it manifests, paths of the three files).""")
